@@ -1,9 +1,11 @@
 import TempestVerif.Drv.Util
 import TempestVerif.Model.Dispatch
 import TempestVerif.Gen.Dispatch
+import TempestVerif.Model.Steps
 /- line-protocol handlers of property C13.
    disp.how vec=<0|1> pool=<none|int:k|obj>     → direct | map | poolMap | error
    calls.run np=<n_particles> nw=<n_walkers> ops=<w | m:<steps>>;…   → <calls> <evaluated> | error
+   steps.F nsteps=<n> nmax=<n> d=<n> iter=<n> acc=<f> ws=<f> s0=<f>   → <int(adaptive steps) as float bits> <converged 0|1>
 -/
 namespace Drv.C13
 open Drv Model.Dispatch
@@ -39,6 +41,13 @@ def handle (cmd : String) (args : List (String × String)) : Option String :=
       some (match runAcc callTable ⟨np, nw⟩ ⟨0, 0⟩ ops with
         | some a => s!"{a.calls} {a.evaluated}" | none => "error")
     | _, _, _ => some "bad-op"
+  | "steps.F" =>
+    match (getArg args "nsteps").bind String.toNat?, (getArg args "nmax").bind String.toNat?, (getArg args "d").bind String.toNat?,
+          (getArg args "iter").bind String.toNat?, (getArg args "acc").bind parseFloat?, (getArg args "ws").bind parseFloat?,
+          (getArg args "s0").bind parseFloat? with
+    | some ns, some nm, some d, some it, some acc, some ws, some s0 =>
+      some s!"{showFloat (Model.Steps.adaptiveSteps ns nm d acc ws s0)} {showBool (Model.Steps.converged ns nm d it acc ws s0)}"
+    | _, _, _, _, _, _, _ => some "bad-op"
   | _ => none
 
 end Drv.C13
